@@ -213,7 +213,7 @@ def check_property(prop, tier, units, specs, rebaseline=False, only_unit=None, s
     # hint failures: re-run the unit with the failing functions' hints removed
     for i, oc in enumerate(outcomes):
         if oc.status == "ok" and oc.hint_failures:
-            oc2 = run_unit(oc.unit, drop_hints=tuple(oc.hint_failures.keys()), suffix=".nohints")
+            oc2 = run_unit(oc.unit, drop_hints=tuple(oc.hint_failures.keys()), suffix="_nohints")
             for q in oc.hint_failures:
                 if oc2.status != "ok":
                     oc.undecided[q] = "proof hint failed and the hint-free re-run did not complete (%s)" % oc2.status
